@@ -79,8 +79,15 @@ def gen_triple(rng, malformed=None, long=False):
         if len(inside) >= 2:
             grid = inside + [inside[-1] + dt]
             g = rng.choice(grid)
-            et = [r for r in et if r[0] != g]
-            note += " malformed=no_et at %d" % g
+            how = rng.choice(["dropped", "dropped", "restamped"])
+            if how == "restamped" and g != grid[-1]:
+                # the reading is there but stamped late (03:30 for 03:00): as many rows as before inside the span of
+                # the grid, none of them at the grid instant
+                late = g + rng.choice([dt // 2, dt // 3, 1, dt - 1])
+                et = [(late, r[1]) if r[0] == g else r for r in et if r[0] != late]
+            else:
+                et = [r for r in et if r[0] != g]
+            note += " malformed=no_et at %d (%s)" % (g, how)
     if rng.random() < 0.4:
         rng.shuffle(rain)
         rng.shuffle(et)
